@@ -591,7 +591,8 @@ int main(int argc, char** argv) {
     uint8_t* raw = (uint8_t*)vf_real_mmap(nullptr, reserve, PROT_NONE, MAP_PRIVATE | MAP_ANONYMOUS | MAP_NORESERVE, -1, 0);
     if (raw == (uint8_t*)MAP_FAILED) vf_trip("harness", "", "cannot reserve %zu bytes of address space", reserve);
     g_arena_base = (uint8_t*)(((uintptr_t)raw + 32 * MiB - 1) & ~(uintptr_t)(32 * MiB - 1));
-    if (!mi_manage_os_memory_ex(g_arena_base, g_arena_size, false /* committed */, false /* large */, true /* zero */, -1, true /* exclusive */, &g_arena_id))
+    const bool is_zero = ((vf_mix64(C.seed ^ 0x5a17) & 1) != 0);   // fresh PROT_NONE memory is zero, but the caller may not promise it: then the arena keeps no dirty bitmap
+    if (!mi_manage_os_memory_ex(g_arena_base, g_arena_size, false /* committed */, false /* large */, is_zero, -1, true /* exclusive */, &g_arena_id))
       vf_trip("harness", "", "mi_manage_os_memory_ex failed");
     size_t asz = 0; uint8_t* ab = (uint8_t*)mi_arena_area(g_arena_id, &asz);
     if (ab < g_arena_base || ab + asz > g_arena_base + g_arena_size) vf_trip("arena-area", "C15", "mi_arena_area [%p,+%zu) is not inside the region given to mi_manage_os_memory_ex [%p,+%zu)", (void*)ab, asz, (void*)g_arena_base, g_arena_size);
